@@ -48,6 +48,90 @@ def make_crit(nn, fnl, which, par, form, copied=False):
     return f
 
 
+# ---------------- whole tensors through the tensor level of the model (Model/CritTensor.lean, driver op "crit_tensor"): the input
+# tensor of any shape, the target as the caller passes it (none, Python number, 0-dim / per-column / per-path / full tensor), the
+# form (module | functional with its dim, None = the function's default) -> shape and values of the result, or the error kind
+CT_RAT = ("es", "var", "oce")
+
+
+def ct_tensor(t, carrier):
+    vals = [float(v) for v in t.detach().reshape(-1).tolist()]
+    return {"shape": list(t.shape), "data": enc_rat([F(v) for v in vals]) if carrier == "rat" else enc_flt(vals)}
+
+
+def ct_add(torch, reqs, metas, case, which, par, x, target, form, dim, st, v):
+    """queue one call for "crit_tensor"; `par` = p | a | lam | [u-kind, a, b, w]; (st, v) = what the implementation returned"""
+    if x.dtype != torch.float64 or (torch.is_tensor(target) and target.dtype != torch.float64):
+        return
+    carrier = "rat" if which in CT_RAT else "float"
+    aux = None
+    if which in ("es", "var", "erm", "eloss"):
+        spec = [which, float_bits(float(par))]
+    elif which == "iso":
+        spec = ["iso", float_bits(float(par)), float(par) == 1.0]
+    elif which == "oce":
+        spec = ["oce", list(par[:3]), par[3]]
+    else:   # quadratic CVaR: the precision is derived from input - target along the reduced dimension exactly as the code does
+        try:
+            pl = (x if target is None else x - target).detach()
+            d = 0 if form != "functional" else dim
+            if d is None:
+                pl, d = pl.flatten(), 0
+            cen = pl - pl.mean(dim=d, keepdim=True)
+            lower = torch.amin(-cen, dim=d, keepdim=True) - 1e-8
+            upper = torch.amax(-cen, dim=d, keepdim=True) + 1e-8
+            precision = 1e-6 * 10 ** int(math.log10((upper - lower).amax()))
+        except Exception:  # noqa
+            return
+        spec = ["qcvar", float_bits(float(par)), float_bits(1e-8), float_bits(precision), 100000]
+        aux = (float(par), precision)
+    if target is None:
+        tj = None
+    elif torch.is_tensor(target):
+        tj = ct_tensor(target, carrier)
+    else:
+        tj = {"number": rat_str(F(target)) if carrier == "rat" else float_bits(float(target))}
+    if st == "ok":
+        impl = ("ok", list(v.shape), [float(z) for z in v.detach().reshape(-1).tolist()])
+    else:
+        impl = ("err", v)
+    rq = {"op": "crit_tensor", "carrier": carrier, "crit": spec, "form": form, "dim": dim, "target": tj}
+    rq.update(ct_tensor(x, carrier))
+    reqs.append(rq)
+    metas.append(("crit_tensor", case | {"crit_tensor": {"criterion": which, "form": form, "dim": dim, "shape": list(x.shape),
+                                                         "target": "none" if target is None else (list(target.shape) if torch.is_tensor(target) else repr(target))}},
+                  (which, aux, impl)))
+
+
+def ct_check(ctx, case, info, mo):
+    """shape exactly; values at the tolerances of the one-column ops"""
+    which, aux, impl = info
+    if impl[0] == "err":
+        if mo.get("err") != impl[1]:
+            ctx.disagree("crit_tensor", case, list(impl), mo, note="error kind")
+        return
+    if "ok" not in mo:
+        ctx.disagree("crit_tensor", case, {"shape": impl[1], "values": impl[2][:8]}, mo, note="the model raises")
+        return
+    shape, data = mo["ok"]["shape"], mo["ok"]["data"]
+    got = impl[2]
+    if shape != impl[1] or len(data) != len(got):
+        ctx.disagree("crit_tensor", case, {"shape": impl[1], "values": got[:8]}, {"shape": shape, "values": data[:8]}, note="shape")
+        return
+    if which == "es":
+        ok = all(close(a, float(b), 1e-13, 1e-15) for a, b in zip(got, dec_rat(data)))
+    elif which == "erm":
+        ok = all(close(a, b, 1e-10, 1e-12) for a, b in zip(got, dec_flt(data)))
+    elif which in ("eloss", "iso"):
+        ok = all(close(a, b, 1e-10) for a, b in zip(got, dec_flt(data)))
+    else:
+        lam, prec = aux
+        tol = lam * (4 * prec) ** 2 + 4 * prec * 1e-3
+        ok = all(abs(a - b) <= tol + 1e-9 * max(1.0, abs(a)) for a, b in zip(got, dec_flt(data)))
+    if not ok:
+        ctx.disagree("crit_tensor", case, {"shape": impl[1], "values": got[:8]}, {"shape": shape, "values": data[:8]}, note="value")
+
+
 def qprec(col):
     """the precision quadratic_cvar derives from the bracket of a column (1e-6 * 10^int(log10(max - min + 2e-8)))"""
     spread = float(max(col) - min(col)) + 2e-8
@@ -205,8 +289,10 @@ def check(ctx):
         ctx.case(case, True, tag=which + "_batch")
         ctx.traces += 1
         with torch.no_grad():
-            whole = [float(v) for v in crit(x).tolist()]
+            whole_t = crit(x)
+            whole = [float(v) for v in whole_t.tolist()]
             alone = [float(crit(x[:, j])) for j in range(M)]
+        ct_add(torch, reqs, metas, case, which, crit.p if which == "es" else (crit.a if which == "erm" else crit.lam), x, None, "module", None, "ok", whole_t)
         for j in range(M):
             col = smp["cols"][j]
             tolb = 1e-9 * max(1.0, abs(alone[j]))
@@ -279,6 +365,10 @@ def check(ctx):
         except Exception as e:  # noqa
             ctx.fail("a criterion raised on a valid sample with trailing dimensions", case, key=f"{which}:shape:error", detail=repr(e)[:300])
             continue
+        if form == "lastdim":      # the paths moved to the last dimension, dim=-1
+            ct_add(torch, reqs, metas, case, which, par, (x if target is None else x - target).movedim(0, -1).contiguous(), None, "functional", -1, "ok", whole_t)
+        else:
+            ct_add(torch, reqs, metas, case, which, par, x, target, form, 0 if form == "functional" else None, "ok", whole_t)
         if tuple(plain_t.shape) != trailing or tuple(whole_t.shape) != trailing:
             ctx.fail("the risk of a sample of shape (N, *) does not have the trailing shape (*): the columns are not measured one by one",
                      case, key=f"{which}:shape:output-shape", detail={"shape": list(whole_t.shape), "shape without target": list(plain_t.shape)})
@@ -389,8 +479,11 @@ def check(ctx):
         ctx.traces += 1
         crit = make_crit(nn, fnl, which, par, "module" if form.startswith("module") else form, copied)
 
+        last = {}
+
         def rho(t, f=None):
-            return vals((f or crit)(t, TG))
+            last["t"] = (f or crit)(t, TG)
+            return vals(last["t"])
         tol = 1e-9 * scale
         qtol, narrow = tol, False
         if which == "qcvar":
@@ -414,6 +507,8 @@ def check(ctx):
             rz = rho(Z)
             rm = rho(ft * X + (1 - ft) * Z)
             r3 = rho(X)
+            ct_add(torch, reqs, metas, case, which, par, X, TG, "module" if form.startswith("module") else "functional",
+                   None if form.startswith("module") or form == "dimnone" else 0, "ok", last["t"])
             extra = None
             if which == "es":
                 a_ = g.choice([F(1, 2), F(2), F(3)])
@@ -426,7 +521,8 @@ def check(ctx):
             ctx.fail("a criterion raised when the sample tensor (a leaf that requires grad / a tensor used before) was evaluated", case,
                      key=f"{which}:reuse:error", detail=repr(e)[:300])
             continue
-        if any(len(r) != M for r in (r1, r2, ry, rz, rm, r3)):
+        more = [e for e in ((extra[1], extra[3]) if which == "es" else ((extra[1],) if which == "erm" else ())) if e is not None]
+        if any(len(r) != M for r in [r1, r2, ry, rz, rm, r3] + more):
             ctx.fail("the risk of a sample of shape (N, M) does not have M entries", case, key=f"{which}:reuse:output-shape")
             continue
         rel = lambda v: 1e-9 * max(abs(v), 1e-300) if which == "eloss" else (1e-9 * max(abs(v), 1.0) if which == "iso" else qtol)
@@ -576,6 +672,7 @@ def check(ctx):
             with torch.no_grad():
                 r_pl = mod(PL).to(torch.float64)
                 r_fn = make_crit(nn, fnl, which, par, "functional")(PL).to(torch.float64)
+            ct_add(torch, reqs, metas, case, which, par, X, target, "module", None, "ok", r_t)
             if tuple(r_t.shape) != trailing or tuple(PL.shape) != tuple(X.shape):
                 ctx.fail("the risk of a sample of shape (N, *) measured against a target does not have the trailing shape (*)", case,
                          key=f"{which}:tiny:output-shape", detail={"shape": list(r_t.shape)})
@@ -666,6 +763,10 @@ def check(ctx):
                          key=kn if narrow else f"{which}:tiny:convex", detail={"rx": r, "rz": v_z[j], "rmix": v_m[j], "t": ft})
                 break
             if which == "es":
+                if len(vals(r_one[0])) != M or len(vals(r_one[1])) != M:
+                    ctx.fail("expected shortfall at the level 1 of a sample of shape (N, *) measured against a target does not have the trailing shape (*)",
+                             case, key="es:tiny:output-shape", detail={"shape p=1.0": list(r_one[0].shape), "shape p=1 (int)": list(r_one[1].shape)})
+                    break
                 o_f, o_i = vals(r_one[0])[j], vals(r_one[1])[j]
                 if o_f > r + tol or o_i > r + tol or abs(o_f - o_i) > tol:
                     ctx.fail("expected shortfall increases with its quantile level up to the level 1 (given as 1.0 and as the int 1)",
@@ -690,6 +791,11 @@ def check(ctx):
         ctx.ties_broken.append({"kind": "driver", "detail": str(e)[:1500]})
         outs = []
     for (which, case, got), mo in zip(metas, outs):
+        if which == "crit_tensor":
+            ctx.stats["crit_tensor"] += 1
+            ctx.stats[f"crit_tensor:{got[0]}:{case['crit_tensor']['form']}:dim={case['crit_tensor']['dim']}"] += 1
+            ct_check(ctx, case, got, mo)
+            continue
         gots = got if isinstance(got, list) else [got]        # one value per column
         if which == "es":
             mvs = [float(v) for v in dec_rat(mo["es"])]
@@ -704,4 +810,6 @@ def check(ctx):
              "t in {0,1/4,1/2,3/4,1}, cash shifts, scalings, levels and risk aversions; samples of shape (N, *) with boundary parameters (p = 1, 1/N; a, lam at the ends), "
              "scalar / per-column targets, module (also deep-copied) and functional forms (dim=0, last dim), column by column; the same tensor "
              "objects evaluated again and reused to build X + c, X + D and mixtures (module with a reused target, functional dim=0 / default, "
-             "leaf tensors that require grad); non-trivial = N>=2; distinct = sha1 of canonical case")
+             "leaf tensors that require grad); the batched-shape, boundary-parameter, reuse and tiny-sample calls also as whole tensors through the "
+             "tensor level of the model (op crit_tensor: input tensor, target object, form, dim -> shape exactly, values at the one-column tolerances); "
+             "non-trivial = N>=2; distinct = sha1 of canonical case")
